@@ -175,7 +175,7 @@ func runC11(c C11Case) string {
 			if c.Entry == 0 {
 				w = ion.NewBinaryWriter(&buf, ionSSTs(c.SSTs)...)
 			} else {
-				w = ion.NewBinaryWriterLST(&buf, ion.NewLocalSymbolTable(ionSSTs(c.SSTs), c.Locals))
+				w = ion.NewBinaryWriterLST(&buf, localTable(ionSSTs(c.SSTs), c.Locals))
 			}
 			p := pickerOf(c.Picks)
 			fin := map[int]bool{}
@@ -204,7 +204,7 @@ func runC11(c C11Case) string {
 				if c.Entry == 2 {
 					b, err = ion.MarshalBinary(g, ionSSTs(c.SSTs)...)
 				} else {
-					b, err = ion.MarshalBinaryLST(g, ion.NewLocalSymbolTable(ionSSTs(c.SSTs), c.Locals))
+					b, err = ion.MarshalBinaryLST(g, localTable(ionSSTs(c.SSTs), c.Locals))
 				}
 				callErrs = append(callErrs, err)
 				if err == nil {
